@@ -73,3 +73,10 @@ Definition sum_mismatches (l : list agg_case) : list N := mism sum_ok 0 l.
 Definition plan_ok (c : plan_case) : bool :=
   let '(sh, par, nobj, nvec, filt, sliced, v) := c in Bool.eqb (vectorized sh par nobj nvec filt sliced) v.
 Definition plan_mismatches (l : list plan_case) : list N := mism plan_ok 0 l.
+
+(* Head: (limit, scopes as batch lengths, observed emitted lengths per scope) *)
+Definition head_case := (nat * list (list nat) * list (list nat))%type.
+Definition head_ok (c : head_case) : bool :=
+  let '(limit, scopes, obs) := c in
+  list_eqb (list_eqb Nat.eqb) (head_scopes limit O scopes) obs.
+Definition head_mismatches (l : list head_case) : list N := mism head_ok 0 l.
